@@ -1,5 +1,6 @@
 import LlirProofs.CoreLemmas
 import LlirProofs.Core2Mod
+import LlirProofs.Core3Main
 /-! # C01 — Parse then print preserves the meaning of every accepted module (property theorems only)
 
 PARTIAL by construction: the structural theorem below covers M-Core (LlirModel/Core.lean: opaque type
@@ -55,5 +56,30 @@ example : Core2.WF sample := by
   · intro g hg; simp [sample] at hg; subst hg; simp
   · intro g hg; simp [sample] at hg; subst hg
     exact ⟨by decide, by simp [Core2.cwf, Core2.clwf, Core2.firstNoBrace, Types.tyString]⟩
+
+/-! ## M-Core-3: function definitions (parameters, blocks, instructions over locals and constants, terminators) -/
+
+/-- **Parse then print is the identity on function definitions**: for every well-formed function of the fragment (any number of parameters and
+    blocks, named or numbered; 30 instruction / terminator rows; operands that are locals or Core2 constants of any nesting; `wf` is a decidable
+    predicate), the line readers followed by the translation of asm/local.go return exactly the function that was printed — so printing the
+    result reproduces the text. -/
+theorem core3_roundtrip (useHex : Int → Bool) (f : Core3.Func) (h : Core3.wf f = true) :
+    Core3.parse (Core3.printFunc useHex f) = some f := by
+  simp only [Core3.wf, Bool.and_eq_true] at h
+  unfold Core3.parse
+  rw [Core3.readFunc_print useHex f h.1]
+  exact Core3.translate_wf f h.1 h.2
+
+/-- non-vacuity: `define i32 @f(i32 %x, i32 %0) { e: %1 = add i32 %x, 7 / %c = icmp eq i32 %1, %0 / br i1 %c, label %2, label %2 //
+    2: store i32 %1, i32* null / ret i32 %1 }` is well-formed -/
+def core3Sample : Core3.Func :=
+  ⟨.int 32, [102], [(.int 32, .name [120]), (.int 32, .id 0)],
+   [⟨.name [101], [⟨some (.id 1), 0, [.tyval (.int 32) (.loc (.name [120])), .val (.const (.int 7))]⟩,
+                  ⟨some (.name [99]), 13, [.tyval (.int 32) (.loc (.id 1)), .val (.loc (.id 0))]⟩],
+      ⟨none, 28, [.val (.loc (.name [99])), .lab (.id 2), .lab (.id 2)]⟩⟩,
+    ⟨.id 2, [⟨none, 24, [.tyval (.int 32) (.loc (.id 1)), .tyval (.ptr (.int 32) 0) (.const .null)]⟩],
+      ⟨none, 26, [.retv (some (.int 32, .loc (.id 1)))]⟩⟩]⟩
+
+example : Core3.wf core3Sample = true := by decide +kernel
 
 end Llir.Props.C01
